@@ -105,11 +105,13 @@ theorem affine_vsafe {env : Env EF} {ms il ir : ℝ} (hms : 0 ≤ ms) {pl pr x :
     VSafe env (affineIld (Expr.const (fin ms)) pl pr (Expr.const (fin il)) (Expr.const (fin ir)) x).2 := by
   refine ⟨fun env' hv => ?_, fun env' hv => ?_, fun env' hv => ?_, fun env' hv => ?_⟩ <;>
     refine withAffine_env hms hpl hpr hv _ (fun env'' hv'' l sc h1 h2 hsc => ?_)
-  · exact ⟨⟨hx env'' hv'', by show isFin (env''.s 2); rw [h2]; trivial⟩, by show isFin (env''.s 1); rw [h1]; trivial⟩
+  · -- robust to the order in which the source writes `loc + scale * x`
+    have hx' := hx env'' hv''
+    simp [Affine.transform_and_log_det.ast, Safe, Expr.eval, hx', h1, h2]
   · have : 0 < |sc| := abs_pos.mpr hsc.ne'
     simp [Affine.transform_and_log_det.ast, Safe, Expr.eval, applyPrim, PrimSafe, h2, this, hsc.ne']
-  · refine ⟨⟨hx env'' hv'', by show isFin (env''.s 1); rw [h1]; trivial⟩, by show isFin (env''.s 2); rw [h2]; trivial, ?_⟩
-    show env''.s 2 ≠ fin 0; rw [h2]; intro hc; exact hsc.ne' (EF.fin.inj hc)
+  · have hx' := hx env'' hv''
+    simp [Affine.inverse_and_log_det.ast, Safe, Expr.eval, hx', h1, h2, hsc.ne']
   · have : 0 < |sc| := abs_pos.mpr hsc.ne'
     simp [Affine.inverse_and_log_det.ast, Safe, Expr.eval, applyPrim, PrimSafe, h2, this, hsc.ne']
 
